@@ -890,9 +890,6 @@ func (i *interpreter) globalAccess(g *ssa.Global, fr *frame) {
 		return
 	}
 	path := g.Pkg.Pkg.Path()
-	if zeroGlobalsOK[path] || strings.HasSuffix(g.Name(), "$guard") {
-		return
-	}
 	if f := globalInit[path+"."+g.Name()]; f != nil {
 		cell := i.globals[g]
 		if !i.globalSet[g] {
@@ -902,6 +899,9 @@ func (i *interpreter) globalAccess(g *ssa.Global, fr *frame) {
 			i.globalSet[g] = true
 			*cell = f(i)
 		}
+		return
+	}
+	if zeroGlobalsOK[path] || zeroGlobalsOK[path+"."+g.Name()] || strings.HasSuffix(g.Name(), "$guard") {
 		return
 	}
 	panic(pathAbort{"unsupported", "global " + path + "." + g.Name() + " of uninitialised package (in " + fr.fn.String() + ")"})
@@ -925,13 +925,13 @@ var skipInit = map[string]bool{"errors": true, "runtime": true, "reflect": true,
 	"internal/runtime/sys": true, "internal/runtime/maps": true, "internal/goos": true, "internal/goarch": true, "log/slog": true,
 	"unsafe": true, "runtime/debug": true, "runtime/pprof": true, "runtime/trace": true, "testing": true, "flag": true, "crypto/tls": true,
 	"crypto/x509": true, "internal/singleflight": true, "internal/poll/fd": true, "hash/crc32": true, "vendor/golang.org/x/sys/cpu": true,
-	"golang.org/x/sys/cpu": true, "golang.org/x/sys/unix": true, "internal/syscall/execenv": true,
+	"golang.org/x/sys/cpu": true, "github.com/google/uuid": true, "golang.org/x/sys/unix": true, "internal/syscall/execenv": true,
 }
 
 // Packages of uninitialised (skipped) packages whose zero-valued globals are harmless to read.
 var zeroGlobalsOK = map[string]bool{"runtime": true, "sync": true, "sync/atomic": true, "internal/race": true, "internal/godebug": true,
 	"internal/bytealg": true, "internal/cpu": true, "internal/abi": true, "reflect": true, "internal/reflectlite": true, "internal/sync": true,
-	"time": true, "fmt": true, "log": true, "internal/testlog": true}
+	"time": true, "fmt": true, "log": true, "internal/testlog": true, "syscall.errors": true, "syscall.signals": true}
 
 // globalInit supplies the initial value of individual globals of skipped packages.
 var globalInit map[string]func(i *interpreter) value
